@@ -197,6 +197,7 @@ func c03Listen(t *testing.T, endp *Endpoint, remote net.Addr) (string, error) {
 		}
 		return "", err
 	}
+	endp.listeners = append(endp.listeners, l)
 	endp.listenersWg.Add(1)
 	go func() {
 		endp.serv.Serve(&c03PeerListener{Listener: l, remote: remote}) //nolint:errcheck
@@ -381,6 +382,10 @@ func c03Sender(kind, cls, flags, sca string, n int) (addr, params string) {
 		return lp + "é@" + c03SrcDomain, " SMTPUTF8"
 	case "p":
 		return lp + "@" + c03SrcDomain, " FOO=BAR"
+	case "i": // an A-label domain: the key of the source scope is its normalized (U-label) form
+		return lp + "@xn--bcher-kva.example", ""
+	case "I": // a U-label domain
+		return lp + "é@BÜCHER.example", " SMTPUTF8"
 	case "z":
 		return lp + "@" + c03SrcDomain, " SIZE=40000000"
 	}
@@ -690,6 +695,20 @@ func c03Run(t *testing.T, s *c03Scn, addr string) []c03TokRes {
 		}
 	}
 	return res
+}
+
+// c03Shutdown waits until every connection handler has returned (Session.Logout included) and every Serve loop
+// has ended.  A Serve goroutine that has not registered its listener yet when Shutdown runs (a listener nobody
+// connected to) would wait in Accept for ever: close the listeners here as well.
+func c03Shutdown(endp *Endpoint) error {
+	ctx, cancel := context.WithTimeout(context.Background(), 60*time.Second)
+	err := endp.serv.Shutdown(ctx)
+	cancel()
+	for _, l := range endp.listeners {
+		l.Close()
+	}
+	endp.listenersWg.Wait()
+	return err
 }
 
 // ---------------------------------------------------------------- permits
@@ -1145,6 +1164,15 @@ func c03GenScn(r *vh.Rng) *c03Scn {
 		if r.Chance(60) {
 			s.lim = 1 + r.Intn(len(c03LimCfgs)-1)
 		}
+		// other sender domains (other keys of the source scope): the model treats them as their ASCII / SMTPUTF8 kinds
+		for i, t := range s.toks {
+			switch {
+			case strings.HasPrefix(t, "M:a:") && r.Chance(12):
+				s.toks[i] = "M:i:" + t[4:]
+			case strings.HasPrefix(t, "M:8:") && r.Chance(40):
+				s.toks[i] = "M:I:" + t[4:]
+			}
+		}
 	}(r.Fork())
 	if r.Chance(80) {
 		// a plausible client, then damaged
@@ -1268,12 +1296,9 @@ func c03One(t *testing.T, out *vh.Out, s *c03Scn) {
 	endp, addr := c03Endpoint(t, s, elog)
 	res := c03Run(t, s, addr)
 	// quiescence: every connection handler has returned (Session.Logout included)
-	ctx, cancel := context.WithTimeout(context.Background(), 60*time.Second)
-	if err := endp.serv.Shutdown(ctx); err != nil {
+	if err := c03Shutdown(endp); err != nil {
 		out.Note("shutdown: " + err.Error() + " in " + s.line())
 	}
-	cancel()
-	endp.listenersWg.Wait()
 	// the real limiter state, before the probes below create buckets of their own
 	snap := vc03.LimSnapshot(endp.limits)
 	free0 := c03Free(endp.limits, c03SrcDomain)
@@ -1360,6 +1385,9 @@ func c03One(t *testing.T, out *vh.Out, s *c03Scn) {
 	for _, b := range snap {
 		if b.Scope == "ip" {
 			out.Stat("peer." + s.peer[:1] + ".ip-bucket." + b.Key)
+		}
+		if b.Scope == "source" {
+			out.Stat(fmt.Sprintf("source-bucket.%+q", b.Key))
 		}
 	}
 	if len(snap) > 1 {
@@ -1549,12 +1577,9 @@ func (r *c03TRun) run() {
 		cmd(h, "QUIT")
 	}
 	h.c.Close()
-	ctx, cancel := context.WithTimeout(context.Background(), 60*time.Second)
-	if err := r.endp.serv.Shutdown(ctx); err != nil && r.err == nil {
+	if err := c03Shutdown(r.endp); err != nil && r.err == nil {
 		r.err = err
 	}
-	cancel()
-	r.endp.listenersWg.Wait()
 	r.snap2 = vc03.LimSnapshot(r.endp.limits)
 	vc03.LimClose(r.endp.limits)
 }
